@@ -196,12 +196,20 @@ def make_note_el(note, dur, voice, counter, n_of_staves):
         if staff != 1 or n_of_staves > 1:
             etree.SubElement(note_e, "staff").text = "{}".format(staff)
 
-    for slur in note.slur_stops:
+    # the order of the slur elements of one note must not depend on the order in
+    # which the slurs were attached to it (the importer does not keep that order):
+    # first the slurs whose other end was already written, by number
+    def by_number(slurs):
+        known = [s for s in slurs if ("slur", s) in counter]
+        known.sort(key=lambda s: counter[("slur", s)])
+        return known + [s for s in slurs if ("slur", s) not in counter]
+
+    for slur in by_number(note.slur_stops):
         number = range_number_from_counter(slur, "slur", counter)
 
         notations.append(etree.Element("slur", number="{}".format(number), type="stop"))
 
-    for slur in note.slur_starts:
+    for slur in by_number(note.slur_starts):
         number = range_number_from_counter(slur, "slur", counter)
 
         notations.append(
